@@ -1,0 +1,60 @@
+//go:build verif
+
+package routing
+
+// Machine-checked contracts for /verif (govc). Comment-only, compiled only
+// with -tags verif; changes no behaviour.
+//
+// Representation of Table: routes[key] is the list of routes for the network
+// whose String() is key, at most one per origin, sorted by ascending metric.
+
+//@ guarded Table.mu: routes
+
+//@ func (*Route).Clone
+//@ prop C08 C10
+//@ check bounds alloc
+//@ requires r != nil && r.Network != nil
+//@ ensures result != nil && result != r && !old(allocated(result))
+//@ ensures result.NextHop == r.NextHop && result.OriginAgent == r.OriginAgent && result.Metric == r.Metric
+//@ ensures result.Sequence == r.Sequence && result.LastUpdate == r.LastUpdate
+//@ ensures len(result.Path) == len(r.Path) && forall i in 0..len(r.Path): result.Path[i] == r.Path[i]
+//@ ensures result.Network != nil
+//@ trusted-ensures netKey(result.Network) == netKey(r.Network)
+//@ trusted-ensures forall ip net.IP: ipInNet(result.Network, ip) == ipInNet(r.Network, ip)
+//@ note the two trusted clauses say that an IPNet with copied IP and Mask bytes denotes the same network (A8)
+
+//@ func (*Table).sortRoutes
+//@ prop C08 C10
+//@ trusted sort.Slice with the metric comparison yields an ascending-metric permutation of the same slice (A8)
+//@ requires held(t.mu)
+//@ modifies contents(t.routes[key])
+//@ ensures len(t.routes[key]) == old(len(t.routes[key])) && t.routes[key] == old(t.routes[key])
+//@ ensures forall a in 0..len(t.routes[key]): exists b in 0..len(t.routes[key]): t.routes[key][b] == old(t.routes[key][a])
+//@ ensures forall a in 0..len(t.routes[key]): forall b in a..len(t.routes[key]): t.routes[key][a].Metric <= t.routes[key][b].Metric
+
+//@ func (*Table).AddRoute
+//@ prop C08 C10
+//@ check lockset bounds
+//@ modifies *
+//@ requires forall a in 0..len(t.routes[netKey(route.Network)]): forall b in 0..len(t.routes[netKey(route.Network)]): a != b ==> t.routes[netKey(route.Network)][a].OriginAgent != t.routes[netKey(route.Network)][b].OriginAgent
+//@ loop 0 invariant -1 <= rangeindex && rangeindex < len(route.Path) && forall j in 0..rangeindex+1: route.Path[j] != t.localID
+//@ loop 1 invariant -1 <= rangeindex && rangeindex < len(existing) && forall j in 0..rangeindex+1: existing[j].OriginAgent != route.OriginAgent
+//@ ensures[C10] route != nil && route.Network != nil && (exists j in 0..len(route.Path): old(route.Path[j]) == t.localID) ==> !result
+//@ ensures[C10] route != nil && route.Network != nil && (exists j in 0..len(route.Path): old(route.Path[j]) == t.localID) ==> t.routes == old(t.routes) && len(t.routes[netKey(route.Network)]) == old(len(t.routes[netKey(route.Network)]))
+//@ ensures[C08,C10] result ==> forall a in 0..len(t.routes[netKey(route.Network)]): forall b in a..len(t.routes[netKey(route.Network)]): t.routes[netKey(route.Network)][a].Metric <= t.routes[netKey(route.Network)][b].Metric
+//@ ensures[C10] result ==> exists j in 0..len(t.routes[netKey(route.Network)]): t.routes[netKey(route.Network)][j].OriginAgent == route.OriginAgent && t.routes[netKey(route.Network)][j].Metric == route.Metric && t.routes[netKey(route.Network)][j].NextHop == route.NextHop && t.routes[netKey(route.Network)][j].Sequence == route.Sequence
+//@ ensures[C10] result ==> forall j in 0..old(len(t.routes[netKey(route.Network)])): old(t.routes[netKey(route.Network)][j].OriginAgent) == route.OriginAgent ==> route.Sequence > old(t.routes[netKey(route.Network)][j].Sequence) || (route.Sequence == old(t.routes[netKey(route.Network)][j].Sequence) && route.Metric < old(t.routes[netKey(route.Network)][j].Metric))
+
+//@ func (*Table).lookupUnlocked
+//@ prop C08
+//@ check lockset bounds
+//@ requires held(t.mu)
+//@ requires forall k string: forall j in 0..len(t.routes[k]): has(t.routes, k) ==> t.routes[k][j] != nil && t.routes[k][j].Network != nil
+//@ loop 0 invariant bestPrefixLen >= -1 && (bestRoute == nil <==> bestPrefixLen == -1)
+//@ loop 0 invariant forall k string: visited(k) && has(t.routes, k) && len(t.routes[k]) > 0 && ipInNet(t.routes[k][0].Network, ip) ==> maskOnes(t.routes[k][0].Network.Mask) <= bestPrefixLen
+//@ loop 0 invariant bestRoute != nil ==> exists k string: has(t.routes, k) && len(t.routes[k]) > 0 && t.routes[k][0] == bestRoute && ipInNet(bestRoute.Network, ip) && maskOnes(bestRoute.Network.Mask) == bestPrefixLen
+//@ after call Clone let chosen = $0
+//@ ensures result == nil ==> forall k string: has(t.routes, k) && len(t.routes[k]) > 0 ==> !ipInNet(t.routes[k][0].Network, ip)
+//@ ensures result != nil ==> ipInNet(chosen.Network, ip) && exists k string: has(t.routes, k) && len(t.routes[k]) > 0 && t.routes[k][0] == chosen
+//@ ensures result != nil ==> forall k string: has(t.routes, k) && len(t.routes[k]) > 0 && ipInNet(t.routes[k][0].Network, ip) ==> maskOnes(t.routes[k][0].Network.Mask) <= maskOnes(chosen.Network.Mask)
+//@ ensures result != nil ==> result.Metric == chosen.Metric && result.NextHop == chosen.NextHop && result.OriginAgent == chosen.OriginAgent
